@@ -42,7 +42,7 @@ def check_spec(acc, spec, tier):
             if r:
                 variants.append((r[1], "api"))
     for vs, vtag in variants:
-        cfgs = S.configs_for(vs, tier, full=SC.family_of(spec) in ("F3", "F4"))
+        cfgs = S.configs_for(vs, tier, full=SC.family_of(spec) in ("F3", "F4", "F7"))
         if vtag == "permuted" and tier == "quick":
             cfgs = cfgs[:2] + cfgs[4:5]
         if vtag == "api":
